@@ -20,6 +20,7 @@ import (
 const modulePath = "go.sia.tech/coreutils"
 
 type Engine struct {
+	missing []string // contracts whose function is gone
 	repo      string
 	fset      *token.FileSet
 	pkgs      []*packages.Package
@@ -137,7 +138,14 @@ func (e *Engine) register(b *Block, pkgPath string) error {
 	case "func", "extern", "lemma":
 		name := e.resolveFuncName(b.Name, pkgPath)
 		if _, ok := e.funcs[name]; !ok {
-			return fmt.Errorf("function %q (resolved %q) not found", b.Name, name)
+			if b.Kind == "extern" {
+				return fmt.Errorf("function %q (resolved %q) not found", b.Name, name)
+			}
+			// a function of the repository that a contract names is gone (removed or renamed by
+			// a change): not a reason to stop -- its listed obligations are reported as no longer
+			// generated and whatever relied on its contract fails on its own
+			e.missing = append(e.missing, fmt.Sprintf("%s:%d: function %q under contract no longer exists", b.File, b.Line, b.Name))
+			return nil
 		}
 		if old, dup := e.blocks[name]; dup {
 			return fmt.Errorf("duplicate contract for %s (also at %s:%d)", name, old.File, old.Line)
